@@ -13,7 +13,7 @@ from . import core
 from .core import WORK, ROOT, log
 
 NEG = [("NEG_TendrilConc.cfg", "TendrilConc.tla"), ("NEG_TokInput_bav.cfg", "MC_TokInput.tla"),
-       ("NEG_TokInput_bom.cfg", "MC_TokInput.tla"), ("NEG_TokInput_eat.cfg", "MC_TokInput.tla"),
+       ("NEG_TokInput_bom.cfg", "MC_TokInput.tla"), ("NEG_TokInput_bavcr.cfg", "MC_TokInput.tla"), ("NEG_TokInput_eat.cfg", "MC_TokInput.tla"),
        ("NEG_XmlInput_bom.cfg", "MC_XmlInput.tla"), ("NEG_XmlInput_nul.cfg", "MC_XmlInput.tla"),
        ("NEG_XmlSer_decl_before_attrs.cfg", "MC_XmlSer.tla"), ("NEG_XmlSer_end_pop_first.cfg", "MC_XmlSer.tla"),
        ("NEG_XmlSer_no_undeclare.cfg", "MC_XmlSer.tla")]
